@@ -199,7 +199,11 @@ func init() {
 		if p := os.Getenv("ARVCHECK_DUMP_PKGS"); p != "" {
 			pats = []string{p}
 		}
-		w, err := Load("/repo", pats, false, nil)
+		repoDir := "/repo"
+		if d := os.Getenv("ARVCHECK_DUMP_REPO"); d != "" {
+			repoDir = d
+		}
+		w, err := Load(repoDir, pats, false, nil)
 		if err != nil {
 			fmt.Println(err)
 			os.Exit(1)
